@@ -689,7 +689,8 @@ func (_this *cteListener) EnterContainerRecordType(ctx *parser.ContainerRecordTy
 
 	// TODO: ExitRecordTypeBegin isn't getting called???
 
-	identifier := ctx.GetText()
+	// Only the begin token ("@identifier<"): the text of the whole context would include every key.
+	identifier := ctx.GetStart().GetText()
 	cutoff := strings.IndexByte(identifier, '<')
 	_this.eventReceiver.OnRecordType([]byte(identifier[1:cutoff]))
 }
@@ -707,7 +708,9 @@ func (_this *cteListener) EnterContainerRecord(ctx *parser.ContainerRecordContex
 		_this.wrapPanic(recover(), ctx.BaseParserRuleContext)
 	}()
 
-	identifier := ctx.GetText()
+	// Only the begin token ("@identifier{"): the text of the whole context would include every value,
+	// nested records and all.
+	identifier := ctx.GetStart().GetText()
 	cutoff := strings.IndexByte(identifier, '{')
 	_this.eventReceiver.OnRecord([]byte(identifier[1:cutoff]))
 }
